@@ -7,6 +7,7 @@ symbolic instants. Reference for the formats: the vendor documents' discovery se
 """
 from __future__ import annotations
 
+import asyncio
 import importlib
 import socket as _socket
 
@@ -51,6 +52,8 @@ def instances(tier):
             out.append({"kind": "template", "gen": g, "free": 3, "which": "ids"})
             out.append({"kind": "template", "gen": g, "free": 3, "which": "name"})
     out.append({"kind": "both", "gen": 0})
+    for g in (4, 5):
+        out.append({"kind": "reuse", "gen": g})       # a second search() on the same discoverer object
     return out
 
 
@@ -179,10 +182,54 @@ def _str_eq(s, items):
     return bytes_eq(got, items)
 
 
+def _reuse(ctx, p):
+    """The documented discoverer object searched twice: the second search sends its own requests and reports the consoles
+    that answered *it* (console A answers the first search only, console B the second at a free instant)."""
+    g = p["gen"]
+    w = World(ctx)
+    try:
+        cfg = importlib.import_module(f"pyairtouch.at{g}.comms.discovery").CONFIG
+        d = w.disc.AirTouchDiscoverer(discovery_config=cfg, remote_host=None)
+        out = {}
+        tb = ctx.real("tb", 0, 1.4)
+        ctx.assume(sym_and(tb != 0, tb != 0.5, tb != 1.0))
+
+        async def go():
+            out["first"] = list(await d.search())
+            out["t1"] = w.loop.time()
+            await asyncio.sleep(5.0 - w.loop.time())
+            out["second"] = list(await d.search())
+            out["t2"] = w.loop.time()
+
+        a = list(b"10.0.0.9,AA11,AirTouch%d,2468" % g) + (list(b",Home") if g == 5 else [])
+        b = list(b"10.0.0.8,BB22,AirTouch%d,1357" % g) + (list(b",Shed") if g == 5 else [])
+        w.deliver(g, bytes(a), 0.25)
+        w.deliver(g, bytes(b), 5.0 + tb)
+        w.loop.create_task(go())
+        w.loop.vt_run(9.0)
+        first, second = out.get("first"), out.get("second")
+        detail = {"first": [getattr(x, "airtouch_id", None) for x in first or []], "second": [str(getattr(x, "airtouch_id", None)) for x in second or []]}
+        ctx.observe("counts", [len(first or []), len(second or [])])
+        ctx.check(first is not None and len(first) == 1 and first[0].airtouch_id == "2468", "entries_exact", detail=detail)
+        ctx.check(second is not None and len(second) == 1 and second[0].airtouch_id == "1357" and second[0].host == "10.0.0.8", "entries_exact",
+                  detail=dict(detail, why="the second search does not report exactly the console that answered it"))
+        mine = [s for s in w.sent if _b(s[0] >= 5.0)]
+        exp_n = 1 if _b(tb < 0.5) else 2 if _b(tb < 1.0) else 3
+        ctx.check(len(mine) == exp_n and all(_b(s[0] == 5.0 + 0.5 * i) for i, s in enumerate(mine)), "requests",
+                  detail=dict(detail, sent=[str(s[0]) for s in mine], expected=exp_n))
+        ctx.check("t2" in out, "terminates", detail=detail)
+    finally:
+        w.close()
+    for lab in expect_labels("quick"):
+        ctx.reach(lab)
+
+
 def run(ctx, p):
     import pyairtouch
     A = importlib.import_module("pyairtouch.api")
     kind = p["kind"]
+    if kind == "reuse":
+        return _reuse(ctx, p)
     g = p["gen"]
     w = World(ctx)
     try:
